@@ -81,6 +81,7 @@ PROPS = {
     'C10': dict(corr=[corr('C10', 'exact')]),
     'C14': dict(corr=[corr('C14', 'set')]),
     'C15': dict(corr=[corr('C15', 'class', forbid=['E:crash', 'E:budget', 'X:', 'I:', 'Z:'])]),
+    'C16': dict(corr=[corr('C16', 'exact', forbid=['E:mismatch', 'E:crash'], model_kinds=['cache'])]),
     'C17': dict(corr=[corr('C17', 'exact', percase=percase_expect)]),
 }
 
